@@ -543,6 +543,142 @@ fn case_fn(case: &mut Case) -> CaseResult {
     Ok(())
 }
 
+/// The same statement through the built CLI (`check`): a valid schema written as definitions plus extensions over 1-4
+/// files (a built-in scalar may be extended too) is accepted; with one injected resolution fault (a second
+/// definition of a type in another file, an extension without a definition, a built-in scalar defined again) the
+/// command fails with a diagnostic in a file that holds an offending item.
+fn cli_case(case: &mut Case, base: &std::path::Path) -> CaseResult {
+    use crate::cli::{run_cli_styled, Project, CLI_STYLES};
+    use crate::gen_schema::{gen_schema, split_into_extensions, SchemaGenOpts};
+    let cli_style = case.ch.below(CLI_STYLES);
+    let fault = if case.ch.chance(1, 2) { 1 + case.ch.below(3) } else { 0 };
+    let mut so = SchemaGenOpts::default();
+    so.descriptions = 0;
+    let gs = gen_schema(&mut case.ch, &so);
+    let mut files: Vec<Vec<MTsDef>> = split_into_extensions(&mut case.ch, &gs.doc).into_iter().filter(|f| !f.is_empty()).collect();
+    while files.len() < 2 {
+        files.push(vec![MTsDef::Type(MTypeDef::new(Kind::Scalar, &format!("Pad{}", files.len())))]);
+    }
+    let mut texts: Vec<String> = files.iter().map(|f| crate::render::canon_ts(f)).collect();
+    // a built-in scalar has an implicit definition: extending it is legal
+    let tag_on_scalar = gs.schema.directives.get("tag").map(|d| d.locations.iter().any(|l| l == "SCALAR")).unwrap_or(false);
+    if tag_on_scalar && case.ch.chance(1, 3) {
+        // (not String / Int: @tag has arguments of these types, and a directive must not be applied within its own argument types)
+        let b = *case.ch.pick(&["ID", "Float", "Boolean"]);
+        let i = case.ch.below(texts.len());
+        texts[i].push_str(&format!("\nextend scalar {b} @tag(name: \"built-in\")\n"));
+        case.label("extends-built-in-scalar");
+    }
+    // the fault goes into a file other than the first one half of the time (positions carry a file index)
+    let n = texts.len();
+    let at = if case.ch.flip() { n - 1 } else { case.ch.below(n) };
+    let mut offending: Vec<usize> = vec![];
+    let what = match fault {
+        1 => {
+            // a type of the schema defined once more, in file `at`
+            let names: Vec<(usize, String, Kind)> = files
+                .iter()
+                .enumerate()
+                .flat_map(|(i, f)| f.iter().filter_map(move |d| if let MTsDef::Type(t) = d { Some((i, t.name.clone(), t.kind)) } else { None }))
+                .collect();
+            let (home, name, kind) = names[case.ch.below(names.len())].clone();
+            let body = match kind {
+                Kind::Scalar => format!("scalar {name}"),
+                Kind::Object => format!("type {name} {{ again: Int }}"),
+                Kind::Interface => format!("interface {name} {{ again: Int }}"),
+                Kind::Union => format!("union {name} = {}", gs.schema.objects().first().map(|o| o.name.clone()).unwrap_or_else(|| "Query".into())),
+                Kind::Enum => format!("enum {name} {{ AGAIN }}"),
+                Kind::Input => format!("input {name} {{ again: Int }}"),
+            };
+            texts[at].push_str(&format!("\n{body}\n"));
+            offending = vec![home, at];
+            "duplicate-definition"
+        }
+        2 => {
+            let kw = *case.ch.pick(&["type", "interface", "input", "enum", "union", "scalar"]);
+            let body = match kw {
+                "type" | "interface" | "input" => format!("extend {kw} NoSuchDefinition {{ x: Int }}"),
+                "enum" => "extend enum NoSuchDefinition { X }".to_string(),
+                "union" => format!("extend union NoSuchDefinition = {}", gs.schema.objects().first().map(|o| o.name.clone()).unwrap_or_else(|| "Query".into())),
+                _ => "extend scalar NoSuchDefinition @deprecated".to_string(),
+            };
+            texts[at].push_str(&format!("\n{body}\n"));
+            offending = vec![at];
+            "orphan-extension"
+        }
+        3 => {
+            let b = *case.ch.pick(&["ID", "String", "Int", "Float", "Boolean"]);
+            texts[at].push_str(&format!("\nscalar {b}\n"));
+            offending = vec![at];
+            "built-in-scalar-defined-again"
+        }
+        _ => "valid",
+    };
+    let proj = Project::new(base);
+    proj.write("graphql.config.yaml", "schema: \"schema/*.graphqls\"\ndocuments: \"ops/*.graphql\"\n");
+    for (i, t) in texts.iter().enumerate() {
+        proj.write(&format!("schema/f{i}.graphqls"), t);
+    }
+    proj.write("ops/q.graphql", "query CliQ { __typename }\n");
+    let run = run_cli_styled(&proj.dir, &["check", "--output-format", "json"], cli_style);
+    let detail = json!({"fault": what, "files": texts.iter().enumerate().map(|(i, t)| json!({"path": format!("schema/f{i}.graphqls"), "text": t})).collect::<Vec<_>>(),
+        "status": run.status, "stdout": run.stdout.chars().take(1500).collect::<String>(), "stderr": run.stderr.chars().take(400).collect::<String>()});
+    proj.remove();
+    case.evals(1);
+    case.label(what);
+    case.label(&format!("cli-style-{cli_style}"));
+    if run.crashed() {
+        return Err(Failure::new("cli-crashed", format!("check crashed: {}", run.stderr.lines().find(|l| l.contains("panicked")).unwrap_or("signal")), detail));
+    }
+    if fault == 0 {
+        if run.status != Some(0) {
+            return Err(Failure::new("cli-rejects-valid-extensions", format!("`check` exits {:?} on a valid schema written as definitions and extensions", run.status), detail));
+        }
+    } else {
+        if run.status != Some(1) {
+            return Err(Failure::new(format!("cli-accepts:{what}"), format!("`check` exits {:?}, expected 1 ({what})", run.status), detail));
+        }
+        // some diagnostic lies in a file that holds an offending item
+        let v: Value = serde_json::from_str(run.stdout.trim()).unwrap_or(Value::Null);
+        let mut named: Vec<String> = vec![];
+        fn collect(v: &Value, out: &mut Vec<String>) {
+            match v {
+                Value::Object(m) => {
+                    if let Some(p) = m.get("path").and_then(|p| p.as_str()) {
+                        out.push(p.to_string());
+                    }
+                    for x in m.values() {
+                        collect(x, out);
+                    }
+                }
+                Value::Array(a) => a.iter().for_each(|x| collect(x, out)),
+                _ => {}
+            }
+        }
+        collect(&v, &mut named);
+        // (a command-level message embeds the location in its text)
+        let text = run.stdout.clone();
+        let hit = offending.iter().any(|i| {
+            let f = format!("f{i}.graphqls");
+            named.iter().any(|p| p.ends_with(&f)) || text.contains(&f)
+        });
+        if !hit {
+            return Err(Failure::new(
+                format!("cli-diagnostic-elsewhere:{what}"),
+                format!("no diagnostic names a file holding an offending item ({:?}); files named: {named:?}", offending.iter().map(|i| format!("f{i}.graphqls")).collect::<Vec<_>>()),
+                detail,
+            ));
+        }
+    }
+    if fault != 0 && at != 0 {
+        case.nontrivial(&(&texts, what));
+    } else if fault == 0 && texts.len() >= 3 {
+        case.nontrivial(&(&texts, what));
+    }
+    case.sample(|| json!({"fault": what, "files": texts.len(), "status": run.status}));
+    Ok(())
+}
+
 pub fn run(env: &Env) -> i32 {
     let mut rep = Report::new(
         env,
@@ -554,5 +690,10 @@ pub fn run(env: &Env) -> i32 {
 
     // regression / known-finding probes (none listed for C11 at the moment)
     rep.campaign("merge", env.cases(100_000, 1_000_000), (0, 400), case_fn);
+    rep.note("campaign cli-merge (built CLI, `check`): a generated valid schema written as definitions plus extensions over 2-4 files (a built-in scalar may be extended), valid (50%) or with one injected resolution fault (second definition of a type in another file, extension without definition, built-in scalar defined again), started in five ways; exit 0 for the valid ones, exit 1 with a diagnostic in a file that holds an offending item otherwise. Non-trivial: fault outside the first file, or a valid schema over >= 3 files");
+    let base = work_dir("c11");
+    let b2 = base.clone();
+    rep.campaign("cli-merge", env.cases(300, 6_000), (200, 1200), move |case| cli_case(case, &b2));
+    let _ = std::fs::remove_dir_all(&base);
     rep.finish()
 }
